@@ -352,7 +352,22 @@ vf::Result check(const Case& cs) {
             w.z = op.z & 1;
         }
         if (op.base != w.base) {
-            s.t->MMIOWrite(0x11E, op.base);
+            // move the window: through the host accessor, or (half of the time) through the DSP path, i.e. by a data write to the
+            // window-base register inside the window it is about to move -- which must not land in the memory underneath either
+            uint32_t a32 = (uint32_t)w.base + 0x11E;
+            if ((op.value & 1) && a32 <= 0xFFFF && w.z == 0) { // (bank 1 + DSP path is a deliberate assertion of the MIU model)
+                uint16_t a = (uint16_t)a32;
+                uint16_t under = w.mget(w.data_word(a));
+                auto o = s.guarded([&] { s.t->DataWrite(a, op.base, false); });
+                if (o.kind != 0)
+                    return fail("C11:mmio:outcome", "DSP-path write to the window-base register ended with " + o.what);
+                if (s.t->DataRead(a, true) != under)
+                    return fail("C11:mmio:memory-touched:relocation", "moving the MMIO window from " + vf::hex(w.base) + " to " + vf::hex(op.base) +
+                                                                          " by a DSP-path write changed the memory underneath " + vf::hex(a));
+                vf::klass("MMIO window moved through the DSP path");
+            } else {
+                s.t->MMIOWrite(0x11E, op.base);
+            }
             w.base = op.base;
         }
         // ---- MMIO clause -----------------------------------------------------------------------------------
